@@ -25,6 +25,8 @@ type TableCase struct {
 	Seed    int64          `json:"case_seed"`
 	OutHex  string         `json:"output_hex,omitempty"`
 	Marshal bool           `json:"fixed_table_is_builder_snapshot,omitempty"`
+	// FinishEvery > 0: Finish is also called after every that many values (several batches, one Writer).
+	FinishEvery int `json:"finish_every,omitempty"`
 }
 
 func (k *TableCase) tables() ([]ion.SharedSymbolTable, refsym.Catalog, *refsym.Context) {
@@ -124,13 +126,18 @@ func runTableCase(k *TableCase) (verdict string) {
 	// which top-level values can be written under a fixed table?
 	completed := 0
 	var werr error
-	for _, v := range k.Vals {
+	for i, v := range k.Vals {
 		err := ionx.Write(w, []*model.Value{v}, &ionx.WriteOpts{Rnd: rand.New(rand.NewSource(k.Seed))})
 		if err != nil {
 			werr = err
 			break
 		}
 		completed++
+		if k.FinishEvery > 0 && (i+1)%k.FinishEvery == 0 && i+1 < len(k.Vals) {
+			if err := w.Finish(); err != nil {
+				return fmt.Sprintf("Finish after value %d: %v", i, err)
+			}
+		}
 	}
 	if k.Fixed {
 		// expectation: the first value that uses a text outside the table fails
@@ -181,7 +188,26 @@ func runTableCase(k *TableCase) (verdict string) {
 	}
 	// (1) a reader holding the tables recovers every text: reference decoder and ion-go
 	var final *refsym.Context
-	got, err := refbin.Decode(data, &refbin.DecodeOpts{Catalog: rc, FinalContext: &final})
+	type ctxFrom struct {
+		from int
+		c    *refsym.Context
+	}
+	var ctxs []ctxFrom
+	ctxFor := func(i int) *refsym.Context {
+		var c *refsym.Context
+		for _, cf := range ctxs {
+			if cf.from <= i {
+				c = cf.c
+			}
+		}
+		if c == nil {
+			c = refsym.System()
+		}
+		return c
+	}
+	got, err := refbin.Decode(data, &refbin.DecodeOpts{Catalog: rc, FinalContext: &final, OnContext: func(c *refsym.Context, after int) {
+		ctxs = append(ctxs, ctxFrom{after, c})
+	}})
 	if err != nil {
 		return "reference decoder (with the tables) rejects the output: " + err.Error()
 	}
@@ -228,25 +254,39 @@ func runTableCase(k *TableCase) (verdict string) {
 		rawVals = append(rawVals, v)
 	}
 	used := map[string]bool{}
-	if v := walkSyms(got, rawVals, func(text, sid model.Sym) string {
-		if !text.HasText {
+	if len(rawVals) != len(got) {
+		return "raw and resolved decodes differ in shape"
+	}
+	for vi := range got {
+		cur := ctxFor(vi)
+		// every batch has to declare the imports the writer was given
+		if ci := cur.Imports(); len(ci) != len(wi) && !(len(ci) == 0 && len(model.SymbolTexts(got[vi:vi+1])) == 0) {
+			return fmt.Sprintf("value %d is written under a table declaring %d imports, writer was given %d", vi, len(ci), len(wi))
+		}
+		if v := walkSyms(got[vi:vi+1], rawVals[vi:vi+1], func(text, sid model.Sym) string {
+			if !text.HasText {
+				return ""
+			}
+			used[text.Text] = true
+			lowest, ok := cur.FindByName(text.Text)
+			if text.Text == "" {
+				return ""
+			}
+			if !ok || uint64(sid.SID) != lowest {
+				return fmt.Sprintf("text %q written with id %d, lowest id carrying it is %d", text.Text, sid.SID, lowest)
+			}
 			return ""
+		}); v != "" {
+			return v
 		}
-		used[text.Text] = true
-		lowest, ok := final.FindByName(text.Text)
-		if text.Text == "" {
-			return ""
-		}
-		if !ok || uint64(sid.SID) != lowest {
-			return fmt.Sprintf("text %q written with id %d, lowest id carrying it is %d", text.Text, sid.SID, lowest)
-		}
-		return ""
-	}); v != "" {
-		return v
 	}
 	if !k.Fixed {
-		// local symbols: the last non-import segment
-		for _, seg := range final.Segs[1:] {
+		// local symbols: the non-import segments of every table the stream declares
+		var segs []refsym.Segment
+		for _, cf := range ctxs {
+			segs = append(segs, cf.c.Segs[1:]...)
+		}
+		for _, seg := range segs {
 			if seg.Import {
 				continue
 			}
@@ -341,6 +381,16 @@ func runC11(c *Ctx) {
 				k.Vals = append(k.Vals, v)
 			}
 		}
+		if i%3 == 0 {
+			// several batches through one Writer: symbols recur across Finish calls
+			for tries := 0; len(k.Vals) < 3+r.Intn(4) && tries < 40; tries++ {
+				if v := g.Value(0); gen.TopLevelOK(v) {
+					k.Vals = append(k.Vals, v)
+				}
+			}
+			k.FinishEvery = 1 + r.Intn(2)
+			c.Feat1("batches")
+		}
 		c.Eval(1)
 		c.JournalCase(w, fmt.Sprintf("tables case_seed=%d", cs))
 		// non-trivial: >= 1 symbol found in an import and >= 1 symbol not found in any
@@ -373,7 +423,7 @@ func runC11(c *Ctx) {
 
 func init() {
 	Register(&Monitor{ID: "C11", Run: func(c *Ctx) {
-		c.Rule = "0..3 shared tables with overlapping text, gaps and adjusted max_id; value streams drawing symbols, field names and annotations from inside and outside the tables; written through NewBinaryWriter(out, tables...) and NewBinaryWriterLST(out, NewLocalSymbolTable(tables, locals)). Oracle (independent decoder with and without catalog + id-space model): import declarations equal the tables given (name, version, max_id), every text is written with the lowest id carrying it, local symbols neither duplicate imported text nor stay unused, a reader holding the tables recovers every text; under a fixed table exactly the first value using outside text fails, later calls keep failing, and the bytes emitted stay a valid stream of the completed values. Non-trivial: >= 1 symbol found in an import and >= 1 not found in any; distinct by configuration."
+		c.Rule = "0..3 shared tables with overlapping text, gaps and adjusted max_id; value streams drawing symbols, field names and annotations from inside and outside the tables; written through NewBinaryWriter(out, tables...) and NewBinaryWriterLST(out, NewLocalSymbolTable(tables, locals)). Oracle (independent decoder with and without catalog + id-space model): import declarations equal the tables given (name, version, max_id), every text is written with the lowest id carrying it, local symbols neither duplicate imported text nor stay unused, a reader holding the tables recovers every text; under a fixed table exactly the first value using outside text fails, later calls keep failing, and the bytes emitted stay a valid stream of the completed values; a third of the cases call Finish after every 1-2 values (several batches through one Writer), ids being judged against the table in force at each value. Non-trivial: >= 1 symbol found in an import and >= 1 not found in any; distinct by configuration."
 		runC11(c)
 	}, Replay: func(c *Ctx, v *Violation) string {
 		var k TableCase
